@@ -91,6 +91,8 @@ pub mod model {
         /// MAP_FIXED mappings placed over memory the library did not own
         pub clobbered: u64,
         pub calls: u64,
+        /// consecutive mmap calls without an mprotect in between
+        pub mmap_run: u64,
     }
 
     thread_local! {
@@ -136,6 +138,7 @@ pub mod model {
                 foreign_unmaps: 0,
                 clobbered: 0,
                 calls: 0,
+                mmap_run: 0,
             }
         }
 
@@ -178,6 +181,11 @@ pub mod model {
 
         pub fn mmap(&mut self, hint: u64, len: usize, prot: i32, flags: i32, _fd: i32, _off: i64) -> u64 {
             self.calls += 1;
+            self.mmap_run += 1;
+            if self.mmap_run > 1_000_000 {
+                // one probe per page of the window is 65 537: this search does not end
+                panic!("placement search does not terminate: {} consecutive mmap probes", self.mmap_run);
+            }
             // Linux rounds an unaligned hint down to a page boundary (calibrated by vnative
             // against the running kernel; the model follows it).
             let p = hint & !(self.page - 1);
@@ -252,6 +260,7 @@ pub mod model {
 
         pub fn mprotect(&mut self, addr: u64, len: usize, prot: i32) -> i32 {
             self.calls += 1;
+            self.mmap_run = 0;
             self.mprotect_calls += 1;
             let fail = self.fail_mprotect_at == Some(self.mprotect_calls) || addr % self.page != 0;
             let ret = if fail { -1 } else { 0 };
